@@ -148,6 +148,11 @@ def stats(tree, c, accept, acc=None, depth=1):
     return acc
 
 
+def _timeout_class():
+    from rpyc.core.async_ import AsyncResultTimeout
+    return AsyncResultTimeout
+
+
 def check(case, rec):
     import rpyc
     from rpyc.utils import classic
@@ -178,7 +183,44 @@ def check(case, rec):
         dst = os.path.join(work, "dst root")
         materialise(src, tree, c)
         out = {}
-        with Pair(rpyc.ClassicService, rpyc.ClassicService, connect_in_tasks=True) as p:
+        slow = case.get("slow_read") if case["direction"] == "download" and case["mode"] != "missing" else None
+        if slow is not None:
+            classes.append("one-remote-read-outlasts-the-request-timeout")
+        import builtins
+        real_open = builtins.open
+        reads = [0]
+        with Pair(rpyc.ClassicService, rpyc.ClassicService, connect_in_tasks=True,
+                  config_a={"sync_request_timeout": 5} if slow is not None else None) as p:
+            class SlowFile(object):
+                """a source file one of whose reads (the slow-th of the whole transfer) takes longer than the requester waits"""
+
+                def __init__(self, f):
+                    self.f = f
+
+                def read(self, n=-1):
+                    i = reads[0]
+                    reads[0] += 1
+                    if i == slow:
+                        p.k.sleep(9.0)
+                    return self.f.read(n)
+
+                def __enter__(self):
+                    return self
+
+                def __exit__(self, *a):
+                    self.f.close()
+
+                def __getattr__(self, name):
+                    return getattr(self.f, name)
+
+            def slow_open(path, mode="r", *a, **kw):
+                f = real_open(path, mode, *a, **kw)
+                if mode == "rb" and isinstance(path, str) and path.startswith(src + os.sep):
+                    return SlowFile(f)
+                return f
+            if slow is not None:
+                builtins.open = slow_open
+
             def driver():
                 conn = p.a
                 kw = {} if c == 64000 and case.get("default_chunk") else {"chunk_size": c}
@@ -209,9 +251,15 @@ def check(case, rec):
                         out["missing"] = "ValueError"
                     except Exception as ex:
                         out["missing"] = type(ex).__name__
-            t = p.run(driver)
+            try:
+                t = p.run(driver)
+            finally:
+                builtins.open = real_open
             dl = p.k.deadlock
-        if t.exc is not None:
+        if slow is not None and t.exc is not None and isinstance(t.exc, _timeout_class()) and reads[0] > slow:
+            # the transfer REPORTED that it did not complete: a permitted outcome (what may not happen is a normal return with other bytes)
+            rec.count("transfers that reported the timed-out read")
+        elif t.exc is not None:
             fails.append(Failure("transfer-raised", type(t.exc).__name__, case, t.exc_tb[-300:]))
         elif dl:
             fails.append(Failure("deadlock", "transfer", case, dl))
@@ -302,7 +350,8 @@ def cases():
                                   "mode": st.sampled_from(["tree", "tree", "tree", "file", "missing"]),
                                   "default_chunk": st.booleans(),
                                   "again": st.sampled_from([None, None, "same-size", "half-size"]),
-                                  "sibling": st.sampled_from([None, None, None, ".part", ".tmp", "~", ".bak", ".swp"])})
+                                  "sibling": st.sampled_from([None, None, None, ".part", ".tmp", "~", ".bak", ".swp"]),
+                                  "slow_read": st.sampled_from([None, None, None, 0, 1, 2, 3, 5])})
 
 
 def plan(tier, scale):
